@@ -5,6 +5,7 @@ use num_bigint::{BigInt, BigUint, Sign};
 use num_integer::{Integer, Roots};
 use num_traits::{CheckedSub, CheckedDiv, CheckedEuclid, Euclid, Pow, ToPrimitive, Zero, One, Signed, Num, FromPrimitive};
 use std::io::{self, BufRead, Write};
+use std::convert::TryFrom;
 
 fn pu(s: &str) -> BigUint {
     let s = s.trim_start_matches('+');
@@ -79,9 +80,81 @@ fn sc(a: &[&str]) -> String {
     }
 }
 
+macro_rules! cv_one {
+    ($x:expr, $ty:ty, $to:ident, $fmtbig:ident) => {{
+        let x = $x;
+        let a = format!("{:?}", x.$to());
+        let b = match <$ty as std::convert::TryFrom<_>>::try_from(&x) { Ok(v) => format!("Ok({})", v), Err(e) => { let () = e.into_original(); "Err".to_string() } };
+        let c = match <$ty as std::convert::TryFrom<_>>::try_from(x.clone()) { Ok(v) => format!("Ok({})", v), Err(e) => format!("Err({})", $fmtbig(&e.into_original())) };
+        format!("{} {} {}", a, b, c)
+    }};
+}
+macro_rules! cv_all {
+    ($x:expr, $t:expr, $fmtbig:ident) => {
+        match $t {
+            "u8" => cv_one!($x, u8, to_u8, $fmtbig), "u16" => cv_one!($x, u16, to_u16, $fmtbig), "u32" => cv_one!($x, u32, to_u32, $fmtbig),
+            "u64" => cv_one!($x, u64, to_u64, $fmtbig), "u128" => cv_one!($x, u128, to_u128, $fmtbig), "usize" => cv_one!($x, usize, to_usize, $fmtbig),
+            "i8" => cv_one!($x, i8, to_i8, $fmtbig), "i16" => cv_one!($x, i16, to_i16, $fmtbig), "i32" => cv_one!($x, i32, to_i32, $fmtbig),
+            "i64" => cv_one!($x, i64, to_i64, $fmtbig), "i128" => cv_one!($x, i128, to_i128, $fmtbig), "isize" => cv_one!($x, isize, to_isize, $fmtbig),
+            _ => "UNKNOWN-CV-TYPE".to_string(),
+        }
+    };
+}
+// cv <u|i> <type> <big>: to_T, T::try_from(&big), T::try_from(big) (with the original carried back on failure)
+fn cv(a: &[&str]) -> String {
+    match a[1] {
+        "u" => cv_all!(pu(a[3]), a[2], fu),
+        "i" => cv_all!(pi(a[3]), a[2], fi),
+        // BigUint::try_from(BigInt) both forms, to_biguint, to_bigint
+        "iu" => {
+            let x = pi(a[3]);
+            let r1 = match BigUint::try_from(&x) { Ok(v) => format!("Ok({})", fu(&v)), Err(e) => { let () = e.into_original(); "Err".to_string() } };
+            let r2 = match BigUint::try_from(x.clone()) { Ok(v) => format!("Ok({})", fu(&v)), Err(e) => format!("Err({})", fi(&e.into_original())) };
+            let r3 = opt(num_bigint::ToBigUint::to_biguint(&x), fu);
+            let r4 = opt(num_bigint::ToBigInt::to_bigint(&x), fi);
+            format!("{} {} {} {}", r1, r2, r3, r4)
+        }
+        "ui" => {
+            let x = pu(a[3]);
+            format!("{} {} {}", fi(&BigInt::from(x.clone())), opt(num_bigint::ToBigInt::to_bigint(&x), fi), opt(num_bigint::ToBigUint::to_biguint(&x), fu))
+        }
+        _ => "UNKNOWN-CV".to_string(),
+    }
+}
+macro_rules! fr_unsigned {
+    ($v:expr, $ty:ty, $fp:ident) => {{
+        let v: $ty = $v;
+        format!("{} {} {} {} {} {}", fu(&BigUint::from(v)), fi(&BigInt::from(v)), opt(BigUint::$fp(v), fu), opt(BigInt::$fp(v), fi),
+            opt(num_bigint::ToBigUint::to_biguint(&v), fu), opt(num_bigint::ToBigInt::to_bigint(&v), fi))
+    }};
+}
+macro_rules! fr_signed {
+    ($v:expr, $ty:ty, $fp:ident) => {{
+        let v: $ty = $v;
+        let t = match BigUint::try_from(v) { Ok(x) => format!("Ok({})", fu(&x)), Err(e) => { let () = e.into_original(); "Err".to_string() } };
+        format!("{} {} {} {} {} {}", t, fi(&BigInt::from(v)), opt(BigUint::$fp(v), fu), opt(BigInt::$fp(v), fi),
+            opt(num_bigint::ToBigUint::to_biguint(&v), fu), opt(num_bigint::ToBigInt::to_bigint(&v), fi))
+    }};
+}
+// fr <type> <value>: From / TryFrom / FromPrimitive / ToBigUint / ToBigInt of a primitive
+fn fr(a: &[&str]) -> String {
+    let s = a[2];
+    match a[1] {
+        "u8" => fr_unsigned!(pu64(s) as u8, u8, from_u8), "u16" => fr_unsigned!(pu64(s) as u16, u16, from_u16), "u32" => fr_unsigned!(pu64(s) as u32, u32, from_u32),
+        "u64" => fr_unsigned!(pu64(s), u64, from_u64), "usize" => fr_unsigned!(pu64(s) as usize, usize, from_usize),
+        "u128" => fr_unsigned!(u128::from_str_radix(s, 16).unwrap(), u128, from_u128),
+        "i8" => fr_signed!(pi128(s) as i8, i8, from_i8), "i16" => fr_signed!(pi128(s) as i16, i16, from_i16), "i32" => fr_signed!(pi128(s) as i32, i32, from_i32),
+        "i64" => fr_signed!(pi128(s) as i64, i64, from_i64), "isize" => fr_signed!(pi128(s) as isize, isize, from_isize),
+        "i128" => fr_signed!(pi128(s), i128, from_i128),
+        _ => "UNKNOWN-FR-TYPE".to_string(),
+    }
+}
+
 fn run(a: &[&str]) -> String {
     let op = a[0];
     if op == "sc" { return sc(a); }
+    if op == "cv" { return cv(a); }
+    if op == "fr" { return fr(a); }
     match op {
         // ---- BigUint arithmetic
         "uadd" => fu(&(&pu(a[1]) + &pu(a[2]))),
